@@ -5,8 +5,10 @@ package c19
 import (
 	"bytes"
 	"crypto/sha256"
+	"encoding/binary"
 	"fmt"
 	"math/big"
+	"math/rand"
 	"reflect"
 	"sort"
 	"strings"
@@ -533,6 +535,11 @@ func storeReadBack(r *core.Run) {
 				if i == 2 { // 16 height bytes ending in "/processedTime"-like tail
 					h = clienttypes.NewHeight(0x2f70726f63657373, 0x656454696d652f2f)
 				}
+				if i >= 3 && i < 3+len(keyWords) {
+					// 16 height bytes that END with (or, every other round, BEGIN with) a word of the client stores' own key
+					// vocabulary: such a consensus-state key looks like a key of another kind to suffix / prefix matching
+					h = heightSpelling(rng, keyWords[i-3], (round+i)%2 == 0)
+				}
 				heights[h.String()] = h
 				ck.SetClientConsensusState(ctx, c.name, h, cons)
 				if c.typ == exported.Tendermint {
@@ -592,10 +599,15 @@ func storeReadBack(r *core.Run) {
 				gotPT := map[string]bool{}
 				err, _ = core.Catch(func() error {
 					tmtypes.IterateProcessedTime(store, func(key, val []byte) bool {
+						known := false
 						for _, h := range heights {
 							if bytes.Equal(key, tmtypes.ProcessedTimeKey(h)) {
 								gotPT[h.String()] = true
+								known = true
 							}
+						}
+						if !known {
+							r.Violation(cid, "readback/tendermint.IterateProcessedTime/returned-a-key-that-is-not-a-processed-time-key", map[string]interface{}{"key": core.Hex(key), "value_len": len(val)})
 						}
 						return false
 					})
@@ -720,4 +732,19 @@ func reportHeights(r *core.Run, cid, iter string, written map[string]clienttypes
 			r.Violation(cid, "readback/"+iter+"/read-unwritten-height", map[string]interface{}{"read": k})
 		}
 	}
+}
+
+// keyWords: the vocabulary of the light clients' store keys (at most 16 bytes each, the size of an encoded height).
+var keyWords = []string{"/processedTime", "/clientState", "clientState", "processedTime", "consensusStates/", "/consensusStates", "recentSingers/", "iterateConsensus", "/"}
+
+// heightSpelling returns a height whose 16 encoded bytes end (tail) or begin with word; the rest is random.
+func heightSpelling(rng *rand.Rand, word string, tail bool) clienttypes.Height {
+	b := make([]byte, 16)
+	rng.Read(b)
+	if tail {
+		copy(b[16-len(word):], word)
+	} else {
+		copy(b, word)
+	}
+	return clienttypes.NewHeight(binary.BigEndian.Uint64(b[:8]), binary.BigEndian.Uint64(b[8:]))
 }
